@@ -40,6 +40,7 @@ func msgEq(a, b message.Message) bool {
 
 type codecCase struct {
 	Part   string   `json:"part"`
+	Zeros  bool     `json:"zeros,omitempty"` // payloads are one repeated byte (maximally compressible)
 	IDLen  []int    `json:"id_len"`
 	ChLen  []int    `json:"ch_len"`
 	PayLen []int    `json:"pay_len"`
@@ -70,7 +71,14 @@ var ttls = []uint32{0, 1, 127, 128, 1 << 31, 1<<32 - 1}
 func checkCodecCase(c *core.Ctx, cc codecCase) {
 	var f message.Frame
 	for i := range cc.IDLen {
-		f = append(f, mkMsg(cc.IDLen[i], cc.ChLen[i], cc.PayLen[i], cc.TTL[i]))
+		m := mkMsg(cc.IDLen[i], cc.ChLen[i], cc.PayLen[i], cc.TTL[i])
+		if cc.Zeros {
+			m.Payload = make([]byte, cc.PayLen[i])
+			if cc.PayLen[i] == 0 {
+				m.Payload = nil
+			}
+		}
+		f = append(f, m)
 	}
 	c.Add("evaluations", 1)
 	if len(f) == 1 {
@@ -99,7 +107,7 @@ func checkCodecCase(c *core.Ctx, cc codecCase) {
 	if !ok {
 		c.Violate(fmt.Sprintf("a:frame:roundtrip:n%d", len(f)), fmt.Sprintf("frame of %d messages does not survive encode/decode (err=%v, got %d)", len(f), err, len(out)), cc)
 	}
-	c.Distinct("nontrivial", fmt.Sprint("a", cc.IDLen, cc.ChLen, cc.PayLen, cc.TTL))
+	c.Distinct("nontrivial", fmt.Sprint("a", cc.Zeros, cc.IDLen, cc.ChLen, cc.PayLen, cc.TTL))
 }
 
 func cls(n int) int { return n }
@@ -116,6 +124,21 @@ func partA(c *core.Ctx) {
 		}
 	}
 	c.Sample(codecCase{Part: "a", IDLen: []int{108}, ChLen: []int{128}, PayLen: []int{16384}, TTL: []uint32{1<<32 - 1}})
+	// maximally compressible payloads (one repeated byte) around the compression block sizes, alone and
+	// in frames of 1-4: the compressed form is tiny, so any "announced size versus input size" sanity
+	// check of the decoder sees its extreme ratio
+	for _, pl := range []int{1, 127, 128, 16383, 16384, 32768, 50000, 60000, 64000, 65000, 65400, 65490, 65536} {
+		for n := 1; n <= 4; n++ {
+			cc := codecCase{Part: "a", Zeros: true}
+			for i := 0; i < n; i++ {
+				cc.IDLen = append(cc.IDLen, 24)
+				cc.ChLen = append(cc.ChLen, 3)
+				cc.PayLen = append(cc.PayLen, pl)
+				cc.TTL = append(cc.TTL, 7)
+			}
+			checkCodecCase(c, cc)
+		}
+	}
 	// frames of 0..3 messages over a reduced product (each message: id x payload x ttl-class)
 	type mt struct {
 		il, cl, pl int
